@@ -1509,26 +1509,31 @@ let eval_text_span sp s =
 let tagged origin names =
   map (fun k -> (k, (append origin (append (':'::[]) k)))) names
 
-(** val name_lookup : char list -> char list ns -> char list pyres **)
+(** val name_lookup_outer :
+    char list ns -> char list -> char list ns -> char list pyres **)
 
-let name_lookup text d =
+let name_lookup_outer outer text d =
   match ns_get d text with
   | Some v -> PVal v
-  | None -> PNameError text
+  | None ->
+    (match ns_get outer text with
+     | Some v -> PVal v
+     | None -> PNameError text)
 
 (** val ns_case :
-    char list list -> char list list -> char list list option -> char list
-    list option -> char list -> (char list dheap * char list ns) * char list
-    eres **)
+    char list list -> char list list -> char list list -> char list list
+    option -> char list list option -> char list -> (char list
+    dheap * char list ns) * char list eres **)
 
-let ns_case tbl_names var_names locals bi name =
+let ns_case tbl_names outer_names var_names locals bi name =
   let tbl = tagged ('T'::[]) tbl_names in
   let dh =
     match bi with
     | Some b -> tbl :: ((tagged ('B'::[]) b) :: [])
     | None -> tbl :: []
   in
-  eval_M (fun _ -> false) (fun _ -> Raise KeyError) name_lookup dh O
+  eval_M (fun _ -> false) (fun _ -> Raise KeyError)
+    (name_lookup_outer (tagged ('G'::[]) outer_names)) dh O
     (tagged ('V'::[]) var_names) name (option_map (tagged ('L'::[])) locals)
     (match bi with
      | Some _ -> Some (S O)
